@@ -5,12 +5,12 @@ go 1.25.11
 require (
 	github.com/PowerDNS/lightningstream v0.0.0
 	github.com/PowerDNS/lmdb-go v1.9.3
+	github.com/PowerDNS/simpleblob v1.0.0
 	github.com/sirupsen/logrus v1.9.4
 )
 
 require (
 	github.com/CrowdStrike/csproto v0.35.0 // indirect
-	github.com/PowerDNS/simpleblob v1.0.0 // indirect
 	github.com/beorn7/perks v1.0.1 // indirect
 	github.com/c2h5oh/datasize v0.0.0-20231215233829-aa82cc1e6500 // indirect
 	github.com/cespare/xxhash/v2 v2.3.0 // indirect
